@@ -3,3 +3,4 @@
 import Dblib.Props.C02.Abstract
 import Dblib.Props.C02.Concrete
 import Dblib.Props.C02.EndToEnd
+import Dblib.Props.C03.Duplex  -- the sending side does not touch the receive state
